@@ -823,3 +823,40 @@ func c04LostUpdates(c *Ctx, rule string) {
 	}
 	c.Check(n >= 10, rule, "range copies with field stores enumerated", token.NoPos, itoa(n), "implausibly few ("+itoa(n)+")")
 }
+
+// c12BoolModifier: with the `bool` modifier a comparison does not filter, it
+// returns 0 or 1 for every sample; a static comparison may therefore declare
+// dead code only when the modifier is absent. Each call of
+// calculateStaticReturn must be guarded by (or be told about) n.ReturnBool.
+func c12BoolModifier(c *Ctx, rule string) {
+	fi := c.MustFunc(rule, "internal/parser/utils.parseBinOps")
+	if fi == nil {
+		return
+	}
+	info := fi.Pkg.TypesInfo
+	pm := parentMap(fi.Decl.Body)
+	n := 0
+	ast.Inspect(fi.Decl.Body, func(nd ast.Node) bool {
+		call, ok := nd.(*ast.CallExpr)
+		if !ok || !isCallTo(info, call, "internal/parser/utils.calculateStaticReturn") {
+			return true
+		}
+		n++
+		labels, _ := contextOf(info, pm, call, fi.Decl.Body)
+		aware := false
+		for _, a := range call.Args {
+			if strings.HasSuffix(exprStr(a), ".ReturnBool") {
+				aware = true
+			}
+		}
+		for _, g := range lexicalGuards(pm, call, fi.Decl.Body) {
+			if strings.Contains(exprStr(g.E), ".ReturnBool") {
+				aware = true
+			}
+		}
+		c.Check(aware, rule, "parseBinOps:static comparison #"+itoa(n)+" ["+strings.Join(labels, "/")+"] knows about the bool modifier", call.Pos(), "guarded by / told about ReturnBool",
+			"the constant comparison is evaluated without regard to the `bool` modifier: `1 > bool 5` is declared dead code (\"always evaluates to 1 > 5 which is not possible\") although with `bool` Prometheus returns 0")
+		return true
+	})
+	c.Check(n >= 2, rule, "static comparison sites enumerated", fi.Decl.Pos(), itoa(n), "expected 2 calls of calculateStaticReturn, found "+itoa(n))
+}
